@@ -15,7 +15,7 @@ for d in sorted(glob.glob("/verif/seeded/C*_*"), key=lambda p: (p.split("/")[-1]
         if mm:
             clause = mm.group(1)
             break
-    status = "neutralised (see meta.json)" if m.get("status") == "neutralised" else ("DETECTED" if r.get("detected") else ("not run" if not r else "MISSED"))
+    status = (m["status"] + " (see meta.json)") if m.get("status") else ("DETECTED" if r.get("detected") else ("not run" if not r else "MISSED"))
     cut = lambda s, k: (s or "").replace("\n", " ").replace("|", "/")[:k]
     rows.append("| %s | %s | %s | %s | %s |" % (n, cut(m.get("summary"), 230), cut(m.get("needs"), 200), status, clause))
 open("/verif/seeded/INDEX.md", "w").write(
